@@ -453,6 +453,14 @@ def legs(ctx):
         out.append(Leg('quads', [('CAS', ['order', 'skip'], ch) for ch in chunked(tapes, 4)], work_tapes,
                        exhaustive=True,
                        bound='4-file CAS tapes (%d): all D/A kind quadruples x stream length {254,255}^4' % len(tapes)))
+    # a header written after a larger binary file (its length field is inherited from that file), then skipped
+    tapes = [((k1, n1), (k2, n2), k3) for k1 in 'BPM' for n1 in sizes_near(k1, [UNIT[k1] + 1, 2 * UNIT[k1], 2 * UNIT[k1] + 1])
+             for k2 in 'DA' for n2 in boundary_sizes(k2, 0) + [7] for k3 in (('D', 5), ('B', 40))]
+    out.append(Leg('after-binary', [('CAS', ['order', 'skip'], ch) for ch in chunked(tapes, 3)], work_tapes,
+                   exhaustive=True,
+                   bound='3-file CAS tapes (%d): tokenised/protected/memory file of more than one block (stream length '
+                         'U+1, 2U, 2U+1), then a data/ASCII file (0, 7, U bytes), then a data or program file; read in '
+                         'order and skip-to-second/third' % len(tapes)))
     if q:
         tapes = [((k, n), SECOND[k]) for k in KINDS for n in boundary_sizes(k, 0)]
     else:
